@@ -96,7 +96,13 @@ pub(super) fn translate_operator(
                     ctx,
                 )?;
 
-                text += &arg.into_source();
+                let arg = arg.into_source();
+                if text.ends_with('-') && arg.starts_with('-') {
+                    // `--` would start a comment
+                    text += &format!("({arg})");
+                } else {
+                    text += &arg;
+                }
             }
             pl::InterpolateItem::String(s) => {
                 text += s;
